@@ -55,3 +55,18 @@ pub(crate) fn emit_dispatch(snapshot: &DispatchSnapshot) {
         }
     });
 }
+
+thread_local! {
+    static SITE_HITS: RefCell<std::collections::BTreeMap<&'static str, u64>> =
+        const { RefCell::new(std::collections::BTreeMap::new()) };
+}
+
+/// Records that the named code site was executed on the current thread
+pub(crate) fn hit(site: &'static str) {
+    SITE_HITS.with(|cell| *cell.borrow_mut().entry(site).or_insert(0) += 1);
+}
+
+/// Returns and clears the execution counts of instrumented code sites of the current thread
+pub fn take_site_hits() -> std::collections::BTreeMap<&'static str, u64> {
+    SITE_HITS.with(|cell| std::mem::take(&mut *cell.borrow_mut()))
+}
